@@ -35,7 +35,66 @@ def make_ctx(tier):
 first_party = C.first_party
 
 
+class _Probe:
+    """Collects what the rules report on the fixture; floors and notes are not meaningful there."""
+    def __init__(self):
+        self.fails = []
+        self.oks = []
+        self.config = "fixture"
+
+    def ok(self, rule, key, *a, **k):
+        self.oks.append((rule, key))
+
+    def fail(self, rule, key, *a, **k):
+        self.fails.append((rule, key))
+
+    def check(self, rule, key, cond, *a, **k):
+        (self.oks if cond else self.fails).append((rule, key))
+
+    def floor(self, *a, **k):
+        pass
+
+    def note(self, *a, **k):
+        pass
+
+    def broken(self, msg):
+        raise C.F.AnalysisBroken("fixture: " + msg)
+
+
+def check_fixture(ctx):
+    """Every zero-expected rule must still see its deliberate positive example, and stay silent on the good twin."""
+    from lib import facts as F
+    from lib import loops as L
+    fx = F.load_fixture("c02")
+    pr = _Probe()
+    check_exceptions(pr, fx)
+    check_engagement(pr, fx)
+    check_blocks(pr, fx, "fixture")
+    loops_ = {}
+    for f in fx.functions:
+        if C.first_party(f) and f["qname"].startswith("fixture::"):
+            for h, body, latches in L.natural_loops(f):
+                loops_[f["name"]] = L.classify(f, h, body, latches)[0]
+    want_bad = [("E1", "bad_throw"), ("E1", "bad_regex_unfenced"), ("E2", "bad_optional"), ("E2b", "bad_variant"), ("M1", "bad_block_read")]
+    want_good = ["good_regex_fenced", "good_optional", "good_variant", "good_block_read"]
+    for rule, fn in want_bad:
+        hit = any(r == rule and ("fixture::" + fn) in k for r, k in pr.fails)
+        ctx.check("FX", "fixture: rule %s reports %s" % (rule, fn), hit, "reported", "not reported")
+        if not hit:
+            ctx.broken("the deliberate positive example fixture::%s is no longer reported by rule %s: the rule or the extractor "
+                       "has gone blind" % (fn, rule))
+    for fn in want_good:
+        bad = [(r, k) for r, k in pr.fails if ("fixture::" + fn) in k]
+        if bad:
+            ctx.broken("the well-formed example fixture::%s is reported by %s: the rule raises false alarms" % (fn, bad[0][0]))
+        ctx.ok("FX", "fixture: %s not reported" % fn, "silent")
+    if loops_.get("bad_loop") != "unclassified" or loops_.get("good_loop") != "variant":
+        ctx.broken("loop-variant analysis misjudges the fixture loops: %s" % loops_)
+    ctx.ok("FX", "fixture: bad_loop has no variant, good_loop has one", "as expected")
+
+
 def run(ctx, tier):
+    ctx.rule("FX", "positive examples: the zero-expected rules still fire on /verif/fixtures/c02.cpp")
     ctx.rule("E1", "no exception can leave the library: no throw, regex calls fenced")
     ctx.rule("E2", "optional-like objects are accessed only when engaged")
     ctx.rule("E2b", "std::get<T> on a variant only when it holds T")
@@ -48,6 +107,7 @@ def run(ctx, tier):
     ctx.rule("M1", "fixed-width block reads/writes (SIMD loads, 8-byte memcpy words) stay inside the buffer")
     ctx.rule("M2", "copies into fixed-size stack arrays are bounded by the array size")
     cfgs = ["release"] if tier == "quick" else ["release", "devchecks", "amalgamated", "avx512"]
+    check_fixture(ctx)
     isa = ["release"] if tier == "quick" else ["release", "ssse3", "avx512"]
     fxs = C.load_configs(ctx, cfgs + [c for c in isa if c not in cfgs])
     for name in cfgs:
